@@ -10,24 +10,52 @@ Record case := Case {
   c_end : option Z;
   c_now : Z;
   c_filter : option Z;         (* lookup metadata filter {'g': v}, or none *)
-  c_impl : list nat            (* indices of the recordings the implementation listed, ascending *)
+  c_impl : list N              (* indices of the recordings the implementation listed, ascending (binary numbers:
+                                  a case of the wide-window stream lists 100+ indices up to 200+) *)
 }.
 
 Definition satisfies (f : option Z) (g : Z) : bool :=
   match f with Some v => Z.eqb g v | None => true end.
 Definition filtered (f : option Z) : bool := match f with Some _ => true | None => false end.
 
-Fixpoint listed_idx (n : nat) (s : Z) (eo : option Z) (now : Z) (f : option Z) (ts gs : list Z) : list nat :=
+(** The day folders of a window do not depend on the recording: they are enumerated once per case (a window of several
+    months has 100+ folders) and [listed_matching] is evaluated against that list. *)
+Definition listed_matching_in (ds : list Z) (s : Z) (eo : option Z) (filtered : bool) (t : Z) (m : bool) : bool :=
+  existsb (Z.eqb (day t)) ds && relevant (predicates s eo filtered) (t, m).
+
+Lemma listed_matching_in_eq : forall s eo now filtered t m,
+  listed_matching_in (days_enumerated s (resolve_end eo now)) s eo filtered t m = listed_matching s eo now filtered t m.
+Proof. reflexivity. Qed.
+
+Fixpoint listed_idx (n : N) (ds : list Z) (s : Z) (eo : option Z) (f : option Z) (ts gs : list Z) : list N :=
   match ts, gs with
   | t :: ts', g :: gs' =>
-      if listed_matching s eo now (filtered f) t (satisfies f g)
-      then n :: listed_idx (S n) s eo now f ts' gs'
-      else listed_idx (S n) s eo now f ts' gs'
+      if listed_matching_in ds s eo (filtered f) t (satisfies f g)
+      then n :: listed_idx (N.succ n) ds s eo f ts' gs'
+      else listed_idx (N.succ n) ds s eo f ts' gs'
   | _, _ => []
   end.
 
-Definition model_obs (c : case) : list nat :=
-  listed_idx 0 (c_start c) (c_end c) (c_now c) (c_filter c) (c_times c) (c_tags c).
+(** the same list, every element decided by the model's [listed_matching] itself *)
+Fixpoint listed_idx_spec (n : N) (s : Z) (eo : option Z) (now : Z) (f : option Z) (ts gs : list Z) : list N :=
+  match ts, gs with
+  | t :: ts', g :: gs' =>
+      if listed_matching s eo now (filtered f) t (satisfies f g)
+      then n :: listed_idx_spec (N.succ n) s eo now f ts' gs'
+      else listed_idx_spec (N.succ n) s eo now f ts' gs'
+  | _, _ => []
+  end.
+
+Lemma listed_idx_eq : forall ts gs n s eo now f,
+  listed_idx n (days_enumerated s (resolve_end eo now)) s eo f ts gs = listed_idx_spec n s eo now f ts gs.
+Proof.
+  induction ts as [|t ts IH]; intros gs n s eo now f; destruct gs as [|g gs]; simpl; try reflexivity.
+  rewrite listed_matching_in_eq, !IH. reflexivity.
+Qed.
+
+Definition model_obs (c : case) : list N :=
+  let ds := days_enumerated (c_start c) (resolve_end (c_end c) (c_now c)) in
+  listed_idx 0%N ds (c_start c) (c_end c) (c_filter c) (c_times c) (c_tags c).
 
 Definition check_case (c : case) : bool :=
-  Nat.eqb (length (c_times c)) (length (c_tags c)) && list_eqb Nat.eqb (model_obs c) (c_impl c).
+  Nat.eqb (length (c_times c)) (length (c_tags c)) && list_eqb N.eqb (model_obs c) (c_impl c).
